@@ -17,9 +17,60 @@ pub enum Probe {
     LdAbs0,
     Stack,
     LdAbsLast,
+    /// registers written, then instruction k of `ctx_alphabet`, then `ldabsb 6`
+    LdAbsAfter(u8),
+    /// the same, then `ldindb r5, 4` with r5 = 2
+    LdIndAfter(u8),
+    /// `ldabsb 0x10004` (a packet larger than 64 KiB)
+    LdAbsBig,
+    /// `ldindb r5, 0xfff0` with r5 = 0x14
+    LdIndBig,
 }
 
-const PROBES: [Probe; 7] = [Probe::R1, Probe::DataStart, Probe::DataEnd, Probe::Len, Probe::LdAbs0, Probe::Stack, Probe::LdAbsLast];
+fn probes() -> Vec<Probe> {
+    let mut v = vec![Probe::R1, Probe::DataStart, Probe::DataEnd, Probe::Len, Probe::LdAbs0, Probe::Stack, Probe::LdAbsLast, Probe::LdAbsBig, Probe::LdIndBig];
+    for k in 0..ctx_alphabet().len() as u8 {
+        v.push(Probe::LdAbsAfter(k));
+        v.push(Probe::LdIndAfter(k));
+    }
+    v
+}
+
+const BIG: usize = 0x11000;
+
+pub fn ctx_helper(a: u64, b: u64, _c: u64, _d: u64, _e: u64) -> u64 {
+    a.wrapping_add(b)
+}
+
+/// Instructions executed between the entry and a packet load: whatever they use as scratch, the
+/// packet load still addresses the packet.
+fn ctx_alphabet() -> Vec<(&'static str, Vec<I>)> {
+    let i = |opc: u8, d: u8, s: u8, off: i16, imm: i32| I::new(opc, d, s, off, imm);
+    vec![
+        ("mul64 r2,r3", vec![i(0x2f, 2, 3, 0, 0)]),
+        ("mul64 r0,3", vec![i(0x27, 0, 0, 0, 3)]),
+        ("mul32 r4,r3", vec![i(0x2c, 4, 3, 0, 0)]),
+        ("div64 r2,r3", vec![i(0x3f, 2, 3, 0, 0)]),
+        ("div64 r0,3", vec![i(0x37, 0, 0, 0, 3)]),
+        ("div32 r4,r3", vec![i(0x3c, 4, 3, 0, 0)]),
+        ("mod64 r2,r3", vec![i(0x9f, 2, 3, 0, 0)]),
+        ("mod32 r0,7", vec![i(0x94, 0, 0, 0, 7)]),
+        ("lsh64 r2,r4", vec![i(0x6f, 2, 4, 0, 0)]),
+        ("rsh32 r2,r4", vec![i(0x7c, 2, 4, 0, 0)]),
+        ("arsh64 r3,r4", vec![i(0xcf, 3, 4, 0, 0)]),
+        ("neg64 r2", vec![i(0x87, 2, 0, 0, 0)]),
+        ("be16 r2", vec![i(0xdc, 2, 0, 0, 16)]),
+        ("le64 r3", vec![i(0xd4, 3, 0, 0, 64)]),
+        ("lddw r5", isa::lddw(5, 0x1122334455667788).to_vec()),
+        ("stxdw [r10-8],r2", vec![i(0x7b, 10, 2, -8, 0)]),
+        ("xadddw [r10-8],r3", vec![i(0x7b, 10, 2, -8, 0), i(0xdb, 10, 3, -8, 0)]),
+        ("call 1", vec![isa::call_helper(1)]),
+        ("ja +0", vec![isa::ja(0)]),
+        ("jeq r2,r3,+0", vec![i(0x1d, 2, 3, 0, 0)]),
+        ("mov64 r6,r1", vec![isa::mov64r(6, 1)]),
+        ("mul64 r3,r3; div64 r2,r3", vec![i(0x2f, 3, 3, 0, 0), i(0x3f, 2, 3, 0, 0)]),
+    ]
+}
 
 fn probe_prog(p: Probe, a: usize, b: usize) -> Vec<I> {
     // offsets above i16::MAX are reached by adding to a copy of r1
@@ -43,6 +94,25 @@ fn probe_prog(p: Probe, a: usize, b: usize) -> Vec<I> {
         }
         Probe::LdAbs0 => v.push(I::new(0x30, 0, 0, 0, 0)),
         Probe::LdAbsLast => v.push(I::new(0x30, 0, 0, 0, 6)),
+        Probe::LdAbsAfter(k) | Probe::LdIndAfter(k) => {
+            v.push(isa::mov64i(2, 0x77));
+            v.push(isa::mov64i(3, 0x99));
+            v.push(isa::mov64i(4, 5));
+            v.push(isa::mov64i(0, 9));
+            v.push(isa::mov64i(5, 1));
+            v.extend(ctx_alphabet()[k as usize].1.iter());
+            if matches!(p, Probe::LdAbsAfter(_)) {
+                v.push(I::new(0x30, 0, 0, 0, 6));
+            } else {
+                v.push(isa::mov64i(5, 2));
+                v.push(I::new(0x50, 0, 5, 0, 4));
+            }
+        }
+        Probe::LdAbsBig => v.push(I::new(0x30, 0, 0, 0, 0x10004)),
+        Probe::LdIndBig => {
+            v.push(isa::mov64i(5, 0x14));
+            v.push(I::new(0x50, 0, 5, 0, 0xfff0));
+        }
         Probe::Stack => {
             v.push(I::new(0x72, 10, 0, -1, 0x5a));
             v.push(I::new(0x72, 10, 0, -512, 0x6b));
@@ -62,7 +132,7 @@ struct Pkt {
     len: usize,
 }
 
-const PKTS: [Pkt; 7] = [Pkt { buf: 0, len: 0 }, Pkt { buf: 0, len: 1 }, Pkt { buf: 0, len: 7 }, Pkt { buf: 0, len: 8 }, Pkt { buf: 0, len: 64 }, Pkt { buf: 1, len: 8 }, Pkt { buf: 1, len: 64 }];
+const PKTS: [Pkt; 8] = [Pkt { buf: 0, len: 0 }, Pkt { buf: 0, len: 1 }, Pkt { buf: 0, len: 7 }, Pkt { buf: 0, len: 8 }, Pkt { buf: 0, len: 64 }, Pkt { buf: 1, len: 8 }, Pkt { buf: 1, len: 64 }, Pkt { buf: 2, len: BIG }];
 
 fn applicable(kind: VmKind, p: Probe, pk: &Pkt) -> bool {
     match p {
@@ -71,7 +141,8 @@ fn applicable(kind: VmKind, p: Probe, pk: &Pkt) -> bool {
         Probe::DataEnd => matches!(kind, VmKind::Fixed(..)) && pk.len > 0,
         Probe::Len => matches!(kind, VmKind::Fixed(..)),
         Probe::LdAbs0 => !matches!(kind, VmKind::NoData) && pk.len > 0,
-        Probe::LdAbsLast => !matches!(kind, VmKind::NoData) && pk.len > 6,
+        Probe::LdAbsLast | Probe::LdAbsAfter(_) | Probe::LdIndAfter(_) => !matches!(kind, VmKind::NoData) && pk.len > 6,
+        Probe::LdAbsBig | Probe::LdIndBig => !matches!(kind, VmKind::NoData) && pk.len > 0x10004,
         Probe::Stack => true,
     }
 }
@@ -79,10 +150,10 @@ fn applicable(kind: VmKind, p: Probe, pk: &Pkt) -> bool {
 /// A packet load beyond the packet is an out-of-bounds access: compiled code may trap or (JIT:
 /// no checks) fault. Such executions are outside this property and are not run on compilers.
 fn skip_exec(kind: VmKind, eng: Eng, p: Probe, pk: &Pkt) -> bool {
-    eng != Eng::Interp && matches!(p, Probe::LdAbs0 | Probe::LdAbsLast) && !applicable(kind, p, pk)
+    eng != Eng::Interp && matches!(p, Probe::LdAbs0 | Probe::LdAbsLast | Probe::LdAbsAfter(_) | Probe::LdIndAfter(_) | Probe::LdAbsBig | Probe::LdIndBig) && !applicable(kind, p, pk)
 }
 
-fn expected(kind: VmKind, p: Probe, pk: &Pkt, bufs: &[Buf; 2], mb: &Buf) -> u64 {
+fn expected(kind: VmKind, p: Probe, pk: &Pkt, bufs: &[Buf; 3], mb: &Buf) -> u64 {
     let addr = bufs[pk.buf].addr();
     match p {
         Probe::R1 => match kind {
@@ -101,7 +172,8 @@ fn expected(kind: VmKind, p: Probe, pk: &Pkt, bufs: &[Buf; 2], mb: &Buf) -> u64 
         Probe::DataEnd => addr + pk.len as u64,
         Probe::Len => pk.len as u64,
         Probe::LdAbs0 => bufs[pk.buf].bytes()[0] as u64,
-        Probe::LdAbsLast => bufs[pk.buf].bytes()[6] as u64,
+        Probe::LdAbsLast | Probe::LdAbsAfter(_) | Probe::LdIndAfter(_) => bufs[pk.buf].bytes()[6] as u64,
+        Probe::LdAbsBig | Probe::LdIndBig => bufs[pk.buf].bytes()[0x10004] as u64,
         Probe::Stack => 0x5a6b,
     }
 }
@@ -128,9 +200,10 @@ fn group(s: &mut Sink, kind: VmKind, eng: Eng, p: Probe, thorough: bool) {
     if !PKTS.iter().any(|pk| applicable(kind, p, pk)) {
         return; // this probe says nothing about this VM kind
     }
-    let bufs = [Buf::new(64, 0), Buf::new(64, 0)];
+    let bufs = [Buf::new(64, 0), Buf::new(64, 0), Buf::new(BIG, 0)];
     bufs[0].fill(&(0..64).map(|k| 0x40 + k as u8).collect::<Vec<_>>());
     bufs[1].fill(&(0..64).map(|k| 0x90 + k as u8).collect::<Vec<_>>());
+    bufs[2].fill(&(0..BIG).map(|k| ((k * 31) ^ ((k >> 8) * 17) ^ ((k >> 16) * 101) ^ ((k >> 15) * 59)) as u8).collect::<Vec<_>>());
     let mb = Buf::new(32, 0);
     // the caller's metadata buffer follows the documented convention: data pointers at 0 and 8
     let prog = isa::enc(&probe_prog(p, a, b));
@@ -145,6 +218,7 @@ fn group(s: &mut Sink, kind: VmKind, eng: Eng, p: Probe, thorough: bool) {
             return;
         }
     };
+    let _ = vmx.register_helper(1, ctx_helper);
     match catch(|| vmx.compile(eng)) {
         Ok(Ok(())) => {}
         Ok(Err(e)) => {
@@ -253,9 +327,10 @@ pub fn run(s: &mut Sink) {
     s.meta.insert("alphabet".into(), json!({
         "vm_kinds": "raw, nodata, mbuff, fixed x every ordered pair of non-overlapping offsets from {0,8,16,0x40,0x48,0x50,0x1000,0x10000}",
         "engines": ["interp", "jit", "cranelift"],
-        "probes": PROBES.iter().map(|p| format!("{p:?}")).collect::<Vec<_>>(),
-        "packets": "prefixes of lengths 0,1,7,8,64 of buffer A and 8,64 of buffer B (same start address, different lengths; different addresses)",
-        "sequences": if thorough {"all 343 ordered triples of packets on one VM"} else {"a third of the ordered triples plus all with a repeated packet"},
+        "probes": probes().iter().map(|p| format!("{p:?}")).collect::<Vec<_>>(),
+        "instructions_before_a_packet_load": ctx_alphabet().iter().map(|x| x.0).collect::<Vec<_>>(),
+        "packets": "prefixes of lengths 0,1,7,8,64 of buffer A and 8,64 of buffer B (same start address, different lengths; different addresses), a 69632-byte packet",
+        "sequences": if thorough {"all 512 ordered triples of packets on one VM"} else {"a third of the ordered triples plus all with a repeated packet"},
         "set_program": "fixed VM: offsets swapped by set_program between executions, then swapped back",
     }));
     s.meta.insert("bound".into(), json!("sequences of 3 executions per VM; one set_program round trip"));
@@ -272,7 +347,7 @@ pub fn run(s: &mut Sink) {
                 s.cut("vm kind x engine x probe x packet sequences");
                 return;
             }
-            for p in PROBES {
+            for p in probes() {
                 let rp = json!({"kind":"ctx","vm":vm::kind_name(*kind),"eng":eng.name(),"probe":format!("{p:?}")});
                 s.mark(idx, &format!("{}/ctx", eng.name()), &rp);
                 let k = *kind;
@@ -287,7 +362,7 @@ pub fn replay(v: &Value) -> Vec<String> {
     let kind = vm::parse_kind(v["vm"].as_str().unwrap());
     let eng = Eng::parse(v["eng"].as_str().unwrap());
     let pname = v["probe"].as_str().unwrap();
-    let p = *PROBES.iter().find(|p| format!("{p:?}") == pname).unwrap();
+    let p = *probes().iter().find(|p| format!("{p:?}") == pname).unwrap();
     let mut s = Sink::new("replay", Tier::Thorough, 0, 1, None, None, 3600);
     let rp = v.clone();
     crate::isaeng::run_group(&mut s, eng, "ctx", &rp, move |cs| group(cs, kind, eng, p, true));
